@@ -103,7 +103,8 @@ RULE = ("systematic: rule sets of size 2-4 (thorough 2-6) with saliences 9,8,.. 
 
 def main(run):
     return engine_check(run, PID, ENTRIES_P, make_cases, RULE,
-                        ["C05 is decided for rules whose outcome does not depend on the schedule"])
+                        ["C05 is decided for rules whose outcome does not depend on the schedule"],
+                        after=lambda r: pool_wrappers_part(r, PID, ['ExecuteMixModel', 'ExecuteInverseMixModel', 'ExecuteSelectedRulesMixModel', 'ExecuteSelectedRulesInverseMixModel', 'ExecuteNSortMConcurrent', 'ExecuteNConcurrentMSort', 'ExecuteNConcurrentMConcurrent', 'ExecuteSelectedNSortMConcurrent', 'ExecuteSelectedNConcurrentMSort', 'ExecuteSelectedNConcurrentMConcurrent']))
 
 
 def replay(run, data):
